@@ -17,3 +17,40 @@ package generic
 //@   ensures {C13} pure: forall k string :: has($srv.store[dbof(params.Context)], k) ==> old(has($srv.store[dbof(params.Context)], k)) && $srv.store[dbof(params.Context)][k] == old($srv.store[dbof(params.Context)][k])
 //@   ensures {C13,C04} onlyexpired: forall k string :: old(has($srv.store[dbof(params.Context)], k)) && !has($srv.store[dbof(params.Context)], k) ==> old(sugardb.expired($srv.store[dbof(params.Context)][k], $now))
 //@   ensures {C20} otherdbs: forall d int :: d != dbof(params.Context) ==> $srv.store[d] == old($srv.store[d])
+
+// ---- TTL / PTTL: remaining life of a key in seconds / milliseconds; -2 for a missing key, -1 for a key without deadline.
+//@ spec gkey(params internal.HandlerFuncParams) string = old(params.Command[1])
+//@ spec garg(params internal.HandlerFuncParams, i int) string = old(params.Command[i])
+//@ spec glive(params internal.HandlerFuncParams, k string) bool = sugardb.livekey($srv, dbof(params.Context), k, $now)
+//@ spec gdeadline(params internal.HandlerFuncParams, k string) Time = $srv.store[dbof(params.Context)][k].ExpireAt
+//@ spec gpure(params internal.HandlerFuncParams) bool = forall k string :: has($srv.store[dbof(params.Context)], k) ==> old(has($srv.store[dbof(params.Context)], k)) && $srv.store[dbof(params.Context)][k] == old($srv.store[dbof(params.Context)][k])
+//@ spec gremaining(params internal.HandlerFuncParams) int64 = lower(garg(params, 0)) == "pttl" ? unixmilli(old(gdeadline(params, gkey(params)))) - unixmilli($now) : unixsec(old(gdeadline(params, gkey(params)))) - unixsec($now)
+
+//@ func handleTTL props C04,C12,C13
+//@   requires henv(params)
+//@   assumes own-cmd: len(params.Command) >= 2 ==> disjointarr(params.Command, $srv.keysWithExpiry.keys[dbof(params.Context)])
+//@   ensures {C04} arity: len(params.Command) != 2 ==> result1 != nil
+//@   ensures {C04} missing: len(params.Command) == 2 && !old(glive(params, gkey(params))) ==> result1 == nil && bstr(result0) == ":-2\r\n"
+//@   ensures {C04} persistent: len(params.Command) == 2 && old(glive(params, gkey(params))) && old(gdeadline(params, gkey(params))) == zerotime ==> result1 == nil && bstr(result0) == ":-1\r\n"
+//@   ensures {C04} remaining: len(params.Command) == 2 && old(glive(params, gkey(params))) && old(gdeadline(params, gkey(params))) != zerotime ==> result1 == nil && bstr(result0) == (gremaining(params) <= 0 ? ":0\r\n" : ":" ++ (itoa(gremaining(params)) ++ "\r\n"))
+//@   ensures {C13,C04} pure: gpure(params)
+
+// ---- SET key value [NX|XX] [GET] [EX|PX|EXAT|PXAT n]: the option parser only reads its arguments.
+//@ func getSetCommandOptions props C01,C12
+//@   requires clock != nil
+//@   requires timed: options.expireAt == nil || istype(options.expireAt, "time.Time")
+//@   ensures {C12} timed: result1 == nil ==> (result0.expireAt == nil || istype(result0.expireAt, "time.Time"))
+//@   modifies nothing
+
+// SET writes adapt(value) under the key, and never when NX is given and the key exists or XX is given and it does not
+// (whether or not GET is also given); other keys and databases are untouched.
+//@ func handleSet props C01,C04,C12
+//@   requires henv(params)
+//@   assumes own-cmd: len(params.Command) >= 2 ==> disjointarr(params.Command, $srv.keysWithExpiry.keys[dbof(params.Context)])
+//@   ensures {C01} arity: len(params.Command) < 3 || len(params.Command) > 7 ==> result1 != nil
+//@   assert @SetValues#0 {C01} exists-flag: keyExists == old(glive(params, gkey(params)))
+//@   assert @SetValues#0 {C01} nx-guard: lower(options.exists) == "nx" ==> !keyExists
+//@   assert @SetValues#0 {C01} xx-guard: lower(options.exists) == "xx" ==> keyExists
+//@   ensures {C01} written: result1 == nil ==> has($srv.store[dbof(params.Context)], gkey(params)) && $srv.store[dbof(params.Context)][gkey(params)].Value == internal.adapt(garg(params, 2))
+//@   ensures {C01,C20} otherkeys: forall k string :: k != gkey(params) && has($srv.store[dbof(params.Context)], k) ==> old(has($srv.store[dbof(params.Context)], k)) && $srv.store[dbof(params.Context)][k].Value == old($srv.store[dbof(params.Context)][k].Value)
+//@   ensures {C20} otherdbs: forall d int :: d != dbof(params.Context) ==> $srv.store[d] == old($srv.store[d])
